@@ -14,7 +14,7 @@ META = {
                   "all -330..310) and each path's output is proved equal to ECMAScript Number::toString by a QF_LIA query; the member-sort key "
                   "function is interpreted on two symbolic keys over all of Unicode against UTF-16 code-unit order; the escape character class is "
                   "decided for every code point by regex inclusion; the encoder structure is model-checked on bounded trees with CrossHair.",
-    "level_text_more": 'Also: the structure harness has float leaves: 15 doubles with known ES6 answers (RFC 8785 appendix B forms) and non-finite values, which must be refused at any position.',
+    "level_text_more": 'Also: the structure harness has float leaves: 15 doubles with known ES6 answers (RFC 8785 appendix B forms) and non-finite values, which must be refused at any position. Rounds 5-6: every structure case runs after a fixed module history (refused / accepted serialize() and canonicalize() calls).',
     "level_note": "Trusted/stubbed: C dtoa shortest digits and the repr model (contract-tested), str.encode('utf-16_be') model, re.sub applying the "
                   "replacement per matching character, the C _json.encode_basestring (tied to the python encoder by an exhaustive single-code-point "
                   "contract test, labelled enumeration). Trees > 3 nodes / nesting > 2 and strings beyond the pools are outside the structure claim.",
